@@ -94,8 +94,17 @@ func GenerateStratum(rng *rand.Rand, stratum string) *uni.Universe {
 	for _, p := range pkgs {
 		nv := 1 + rng.Intn(5)
 		seen := map[string]bool{}
+		// One package in eight is at major version zero, where ^0.y.z and
+		// ^0.0.z each mean something narrower than the caret of a 1.y.z.
+		zero := rng.Intn(8) == 0
 		for len(vers[p]) < nv {
 			s := verString(rng)
+			if zero {
+				s = fmt.Sprintf("0.%d.%d", rng.Intn(2), rng.Intn(4))
+				if rng.Intn(8) == 0 {
+					s += "-" + uni.Pick(rng, "alpha", "rc")
+				}
+			}
 			if seen[s] {
 				continue
 			}
